@@ -543,6 +543,30 @@ type NegStruct struct {
 type LookRec struct {
 	L *LookRec `(?= @@ ) "x"`
 }
+
+// a union member that refers to a type parsed by a custom function (Union + ParseTypeWith together)
+type CustomNum interface{ customNum() }
+type UVal interface{ uval() }
+type UNum struct {
+	Num CustomNum `@@`
+}
+type UWord struct {
+	W string `@Ident`
+}
+
+func (UNum) uval()  {}
+func (UWord) uval() {}
+
+type UnionAndCustom struct {
+	Vals []UVal `@@*`
+}
+
+// fields that opt out of the grammar with an empty parser key
+type OptOut struct {
+	A       string `@Ident`
+	Ignored string `parser:"" json:"ignored"`
+	B       string `parser:"@Ident" json:"b"`
+}
 type StmtRoot struct {
 	E *LRExpr `@@ ";"`
 }
@@ -570,10 +594,23 @@ var corpus = []struct {
 	{"EmbeddedPtr", EmbeddedPtr{}, clOther}, {"SelfEmbed", SelfEmbed{}, clValid}, {"DeepPtr", DeepPtr{}, clOther}, {"BadThenRec", BadThenRec{}, clMalformed},
 	{"NegStruct", NegStruct{}, clOther}, {"LookRec", LookRec{}, clOther}, {"StarSelf", StarSelf{}, clOther},
 	{"StmtRoot (left recursion below the root)", StmtRoot{}, clOther}, {"StmtRoot2", StmtRoot2{}, clOther},
+	{"OptOut (parser:\"\" opts a field out)", OptOut{}, clValid},
 	{"*RightRec", &RightRec{}, clValid}, {"string", "x", clOther}, {"int", 3, clOther}, {"[]RightRec", []RightRec{}, clOther}, {"map", map[string]int{}, clOther}, {"nil-func", (func())(nil), clOther},
 }
 
+func unionCustomJob(w *hx.Worker) {
+	custom := participle.ParseTypeWith(func(lex *lexer.PeekingLexer) (CustomNum, error) { return nil, participle.NextMatch })
+	union := participle.Union[UVal](UNum{}, UWord{})
+	for i, opts := range [][]participle.Option{{custom, union}, {union, custom}} {
+		key := fmt.Sprintf("corpus type=UnionAndCustom opts=Union+ParseTypeWith order=%d", i)
+		judge(w, key, clValid, "", tryBuild(UnionAndCustom{}, opts...))
+		w.DistinctS(key)
+	}
+	judge(w, "corpus type=UnionAndCustom opts=Union only", clOther, "", tryBuild(UnionAndCustom{}, union))
+}
+
 func corpusJob(w *hx.Worker) {
+	unionCustomJob(w)
 	for _, c := range corpus {
 		key := "corpus type=" + c.name
 		judge(w, key, c.cl, "", tryBuild(c.v))
